@@ -9,7 +9,7 @@ from hypothesis import strategies as st
 
 from vlib import gen, gen_ops
 from vlib.build import Flavour, build
-from vlib.core import Part
+from vlib.core import Part, optimized_part
 from vlib.invariants import all_invariants
 from vlib.observe import Uids, index_probe, snapshot, walk
 from vlib.ops import Engine, engine_known, flush_excluded
@@ -667,4 +667,5 @@ PARTS = [
     Part("faults", run_faults, strategy=fault_cases, n={"quick": 80, "thorough": 10000}),
     Part("big-merges", run_refusals, strategy=big_merge_cases, n={"quick": 150, "thorough": 5000}),
     Part("big-trees", run_refusals, strategy=big_refusal_cases, n={"quick": 150, "thorough": 10000}),
+    optimized_part("C13", ['refusals', 'faults']),
 ]
